@@ -55,7 +55,12 @@ func (t *topology) Update(primaryNode string, secondaries ...string) {
 		var found bool
 		for _, oldEndpoint := range t.endpoints {
 			if oldEndpoint.url == url {
-				// Take over the old endpoint
+				// Take over the old endpoint: it keeps its health state,
+				// but it is listed as a secondary now (it may be the
+				// demoted primary).
+				oldEndpoint.Lock()
+				oldEndpoint.nodeType = secondary
+				oldEndpoint.Unlock()
 				newEndpoints = append(newEndpoints, oldEndpoint)
 				found = true
 				break
